@@ -42,8 +42,8 @@ def parseOp : List String → Option Op
   | ["handlerErr", i] => Op.handlerErr <$> i.toNat?
   | ["paramErr"] => some .paramErr
   | ["unknownEvt"] => some .unknownEvt
-  | ["nestedUnknown"] => some .nestedUnknown
-  | ["fsmSelfUnknown"] => some .nestedUnknown
+  | ["nestedUnknown"] => some (.nestedUnknown true)
+  | ["fsmSelfUnknown"] => some (.nestedUnknown false)
   | ["ctrlAbort", i] => Op.ctrlAbort <$> i.toNat?
   | ["ctrlShutdown"] => some .ctrlShutdown
   | ["armCalc", i] => (fun n => Op.armCalc (.calc n)) <$> i.toNat?
